@@ -237,7 +237,11 @@ def _relayout_array(x, rng):
     """An array with the same values, shape and dtype but another memory layout (Fortran order, strided or reversed view)."""
     if not isinstance(x, np.ndarray) or x.dtype.kind not in "fi" or x.size < 2:
         return x
-    mode = int(rng.integers(0, 3))
+    mode = int(rng.integers(0, 4))
+    if mode == 3:
+        y = x.copy()
+        y.setflags(write=False)  # a read-only array (e.g. memory-mapped or handed out by another library)
+        return y
     if x.ndim >= 2 and mode == 0:
         return np.asfortranarray(x)
     if mode == 1:
